@@ -62,12 +62,39 @@ def conv_case(draw, with_units=None):
         direction=draw(st.sampled_from(["irr2flux", "flux2irr"])),
         # the unit in which plain input numbers are stated (irr_units= / flux_units=); None = the default I / E
         in_prefix=draw(st.sampled_from([None, None, "", "milli", "micro", "nano"])),
+        # dtype of the spectrum array: the result is a float64 computation whatever the storage type of the input
+        dtype=draw(st.sampled_from([None, None, None, "float32", "int64"])),
     )
+
+
+def _rel(case):
+    """relative tolerance: a float32 spectrum carrying a unit is converted by pint in float32 arithmetic (6e-8)"""
+    return 1e-6 if case.get("dtype") == "float32" else REL
+
+
+def _eff_spec(case):
+    """the spectrum's values as float64 after the dtype of the case has been applied (float32 rounding, integer rounding)"""
+    spec = np.asarray(case["spec"], dtype=float)
+    dt = case.get("dtype")
+    if dt == "float32":
+        spec = np.where(np.abs(spec) < 1e-30, 0.0, spec)       # (a unit conversion in float32 leaves its normal range below 1e-35)
+        return spec.astype(np.float32).astype(float)
+    if dt == "int64":
+        return np.round(np.clip(spec, -1e6, 1e6))
+    return spec
+
+
+def _typed(spec, case):
+    """numpy array of the dtype the case asks for (values already rounded by _eff_spec)"""
+    dt = case.get("dtype")
+    if dt and np.ndim(spec):
+        return np.asarray(spec).astype({"float32": np.float32, "int64": np.int64}[dt])
+    return spec
 
 
 def _wl_broadcast(case):
     """wavelength array broadcast to the spectrum's shape along the stated axis."""
-    spec = np.asarray(case["spec"], dtype=float)
+    spec = _eff_spec(case)
     wl = np.asarray(case["wl"], dtype=float)
     if spec.ndim == 0 or wl.ndim == 0:
         return spec, wl
@@ -81,11 +108,12 @@ def _wl_broadcast(case):
 def _build_args(case, dreye, spec=None):
     """returns (spec_arg, wl_arg, kwargs, factor_in): factor_in converts the supplied numbers to native units."""
     ureg = dreye.ureg
-    spec = np.asarray(case["spec"], dtype=float) if spec is None else spec
+    own = spec is None              # an explicitly passed spectrum (linearity, inverse) is used as it is
+    spec = _eff_spec(case) if own else spec
     wl = np.asarray(case["wl"], dtype=float)
     direction = case["direction"]
     factor = 1.0
-    spec_arg = spec if spec.ndim else float(spec)
+    spec_arg = (_typed(spec, case) if own else spec) if spec.ndim else float(spec)
     su = case["spec_units"]
     if su is not None:
         if direction == "irr2flux":
@@ -132,6 +160,8 @@ def _labels(case):
         labs.append("nt:prefix")
     if case.get("in_prefix"):
         labs.append("nt:input-unit-option")
+    if case.get("dtype"):
+        labs.append(f"dtype:{case['dtype']}")
     if case["axis"] is not None and (case["spec_units"] or case["wl_units"]):
         labs.append("axis+quantity")
     return labs
@@ -153,13 +183,13 @@ def body_value(case):
         # dimensional sanity through an independent spelling of the unit
         base = "mol/m**2/s/nm" if case["direction"] == "irr2flux" else "W/m**2/nm"
         mag_base = np.asarray(out.to(base).magnitude, dtype=float)
-        check(np.allclose(mag_base, exp * PREFIX[case["prefix"]], rtol=1e-11, atol=0), "value:unit-scale", "prefix unit inconsistent with its SI value")
+        check(np.allclose(mag_base, exp * PREFIX[case["prefix"]], rtol=max(1e-11, _rel(case)), atol=0), "value:unit-scale", "prefix unit inconsistent with its SI value")
         mag = np.asarray(out.magnitude, dtype=float)
     else:
         mag = np.asarray(out, dtype=float)
     check(mag.shape == np.asarray(exp).shape, "value:shape", f"shape {mag.shape} != {np.asarray(exp).shape}")
     err = np.abs(mag - exp)
-    check(np.all(err <= REL * np.abs(exp)), "value:value", f"got {np.ravel(mag)[:3].tolist()} expected {np.ravel(exp)[:3].tolist()}",
+    check(np.all(err <= _rel(case) * np.abs(exp)), "value:value", f"got {np.ravel(mag)[:3].tolist()} expected {np.ravel(exp)[:3].tolist()}",
           observed=dict(got=np.ravel(mag)[:3].tolist(), expected=np.ravel(np.asarray(exp))[:3].tolist()))
     return _labels(case)
 
@@ -172,14 +202,14 @@ def body_roundtrip(case):
     back_dir = "flux2irr" if case["direction"] == "irr2flux" else "irr2flux"
     # the intermediate is expressed with the prefix: feed it back in native units, or as it is with the unit option naming the prefix
     if case.get("in_prefix") is None:
-        c2 = dict(case, direction=back_dir, spec=(out * PREFIX[case["prefix"]]).tolist(), spec_units=None, return_units=False, prefix=None, in_prefix=None)
+        c2 = dict(case, direction=back_dir, spec=(out * PREFIX[case["prefix"]]).tolist(), spec_units=None, return_units=False, prefix=None, in_prefix=None, dtype=None)
     else:
-        c2 = dict(case, direction=back_dir, spec=out.tolist(), spec_units=None, return_units=False, prefix=None, in_prefix=case["prefix"] or "")
+        c2 = dict(case, direction=back_dir, spec=out.tolist(), spec_units=None, return_units=False, prefix=None, in_prefix=case["prefix"] or "", dtype=None)
     back, _ = _call(c2, dreye, what=f"{back_dir} (inverse)")
     back = np.asarray(back, dtype=float)
-    spec = np.asarray(case["spec"], dtype=float) * factor
+    spec = _eff_spec(case) * factor
     check(back.shape == spec.shape, "roundtrip:shape", f"{back.shape} vs {spec.shape}")
-    check(np.all(np.abs(back - spec) <= REL * np.abs(spec)), "roundtrip:value", f"{np.ravel(spec)[:3].tolist()} -> {np.ravel(back)[:3].tolist()}")
+    check(np.all(np.abs(back - spec) <= _rel(case) * np.abs(spec)), "roundtrip:value", f"{np.ravel(spec)[:3].tolist()} -> {np.ravel(back)[:3].tolist()}")
     return _labels(case)
 
 
@@ -239,11 +269,11 @@ def body_units_equal(case):
     out_p = np.asarray(out_p, dtype=float) * (factor / factor_p)    # the same numbers, stated in the plain call's unit option
     out_q = np.asarray(out_q, dtype=float)
     check(out_q.shape == out_p.shape, "units-equal:shape", f"{out_q.shape} vs {out_p.shape}")
-    check(np.all(np.abs(out_q - out_p) <= REL * np.abs(out_p)), "units-equal:value", f"plain {np.ravel(out_p)[:3].tolist()} vs quantity {np.ravel(out_q)[:3].tolist()}")
+    check(np.all(np.abs(out_q - out_p) <= _rel(case) * np.abs(out_p)), "units-equal:value", f"plain {np.ravel(out_p)[:3].tolist()} vs quantity {np.ravel(out_q)[:3].tolist()}")
     # and the quantity returned on request carries the same magnitude
     out_u, _ = _call(dict(case, return_units=True), dreye, what=f"{case['direction']} (quantity, return_units=True)")
     check(dreye.has_units(out_u), "units-equal:return-type", "return_units=True did not return a quantity")
-    check(np.all(np.abs(np.asarray(out_u.magnitude, dtype=float) - out_p) <= REL * np.abs(out_p)), "units-equal:magnitude", "quantity magnitude differs")
+    check(np.all(np.abs(np.asarray(out_u.magnitude, dtype=float) - out_p) <= _rel(case) * np.abs(out_p)), "units-equal:magnitude", "quantity magnitude differs")
     return _labels(case)
 
 
